@@ -150,6 +150,8 @@ class Built:
                 kw["domain"] = dompred
             else:
                 kw["domain"] = self.expr(payload)
+        if s.get("type"):
+            return Option[{"int": int, "str": str, "object": object}[s["type"]]](s["key"], **kw)
         return Option(s["key"], **kw)
 
     def _tmpl(self, s):
@@ -181,11 +183,16 @@ class Built:
 
     def _switch(self, s):
         disp = s["disp"] if isinstance(s["disp"], str) else self.expr(s["disp"])
+        def branch(b):
+            if s.get("plain_values") and b["k"] == "const" and not isinstance(b["v"], (list, dict)):
+                return copy.deepcopy(b["v"])  # switch accepts plain values next to Evaluatables
+            return self.expr(b)
+
         table = {}
         for v, b in s["table"]:
-            table[v] = self.expr(b)
+            table[v] = branch(b)
         if s.get("default") is not None:
-            return switch(disp, table, self.expr(s["default"]))
+            return switch(disp, table, branch(s["default"]))
         return switch(disp, table)
 
     def _case(self, s):
@@ -300,18 +307,50 @@ class Built:
         if cache is not None:
             kw["cache"] = cache
             self.caches.append((f"ds{did}", cache))
+        via = d.get("via") or {}  # rarely used public entry points (same semantics, other code paths)
         if d.get("expr") is not None:
             definition = self.expr(d["expr"])
         else:
             definition = self._body(did, "default", d.get("args", []))
+            if via.get("defaults") and d.get("args"):
+                # argument expressions supplied through where(...) / defaults= instead of the signature
+                sig = definition.__signature__
+                supplied = {n: p.default for n, p in list(sig.parameters.items())[::2]}
+                definition.__signature__ = sig.replace(parameters=[
+                    (p.replace(default=inspect.Parameter.empty) if n in supplied else p).replace(kind=inspect.Parameter.KEYWORD_ONLY)
+                    for n, p in sig.parameters.items()])
+                # (parameters without default must come first in a valid signature: keep order by making the
+                #  remaining ones keyword-only is not needed because lift() only reads names and defaults)
+                if via["defaults"] == "kwarg":
+                    kw["defaults"] = supplied
         factory = abstractdataset if d.get("abstract") else dataset
         if shared_factory is not None:
             factory = shared_factory(abstract=True) if d.get("abstract") else shared_factory
+        late_cache = late_effects = None
+        if via.get("nocache_property") and kind == "nocache" and not self.cache_factory:
+            kw.pop("cache", None)
+            factory = factory.nocache
+        elif via.get("set_cache") and "cache" in kw and shared_factory is None:
+            late_cache = kw.pop("cache")
+        if via.get("add_effects") and kw.get("effects"):
+            late_effects = kw.pop("effects")
+        if via.get("defaults") == "where" and d.get("expr") is None and d.get("args"):
+            factory = factory.where(**supplied)
         form = d.get("form", "decorator")
         if form == "decorator":
             obj = factory(**kw)(definition)
         else:
             obj = factory(definition, **kw)
+        if late_cache is not None:
+            obj.set_cache(late_cache if via["set_cache"] == "instance" else (lambda c=late_cache: c))
+        if late_effects:
+            if len(late_effects) > 1 and via["add_effects"] == "one-by-one":
+                for e_ in late_effects:
+                    obj.add_effect(e_)
+            else:
+                obj.add_effects(*late_effects)
+        if via.get("nocache_property") and kind == "nocache" and not self.cache_factory:
+            self.caches = [(l, c) for l, c in self.caches if l != f"ds{did}"] + [(f"ds{did}", obj.cache)]
         self.ds_objs[did] = obj
         self.dataset_ids[id(obj)] = did
         if shared_factory is not None:
